@@ -10,6 +10,7 @@ TLA_CP = "/opt/veriftools/tla/tla2tools.jar:/opt/veriftools/tla/CommunityModules
 WORKERS = int(os.environ.get("VERIF_WORKERS", "0") or 0) or min(16, os.cpu_count() or 4)
 
 EXIT_OK, EXIT_VIOLATION, EXIT_INFRA = 0, 1, 2
+HARNESS_AS_LIMIT = 24 << 30
 
 
 class Infra(Exception):
@@ -275,8 +276,16 @@ def _run_harness_once(engine, scen_file, out_prefix, w, extra, timeout, tags, en
                 os.unlink(out_prefix + ".%d%s" % (i, suf))
             except OSError:
                 pass
+    def limit():
+        # address-space ceiling far above what the harness needs (< 2 GiB): a runaway allocation of the code under
+        # test then ends as a Go "fatal error: ... out of memory" with a stack, not as an anonymous OOM kill
+        import resource
+        try:
+            resource.setrlimit(resource.RLIMIT_AS, (HARNESS_AS_LIMIT, HARNESS_AS_LIMIT))
+        except (ValueError, OSError):
+            pass
     try:
-        p = subprocess.run(cmd, env=e, stdout=subprocess.PIPE, stderr=subprocess.PIPE, text=True, timeout=timeout)
+        p = subprocess.run(cmd, env=e, stdout=subprocess.PIPE, stderr=subprocess.PIPE, text=True, timeout=timeout, preexec_fn=limit)
     except subprocess.TimeoutExpired:
         raise Infra("harness %s timed out" % engine)
     return p
@@ -321,6 +330,18 @@ def run_harness(engine, scen_file, out_prefix, workers=None, extra=(), timeout=1
             for c, q in ex.map(alone, sorted(cands)):
                 if q.returncode not in (0, 64, 65):
                     culprits.append((c, (q.stderr or "")[-600:]))
+        err_txt = p.stderr or ""
+        if not culprits and p.returncode == 2 and "panic:" not in err_txt and "fatal error:" in err_txt:
+            err_txt = err_txt.replace("fatal error:", "panic: fatal error:", 1)
+        if not culprits and p.returncode == 2 and "panic:" in err_txt:
+            # Go panic. If the panicking goroutine has no harness frame it is a goroutine the LIBRARY started
+            # (flusher, collector, an orphaned cycle): that is a failure of the code under test even if timing
+            # keeps it from reproducing in isolation. It is attributed to the scenarios that were in flight.
+            blocks = err_txt[err_txt.find("panic:"):].split("\n\n")
+            first = "\n\n".join(blocks[:2])        # the message and the stack of the panicking goroutine
+            if "go-storethehash" in first and "verif/harness" not in first:
+                for c in sorted(cands):
+                    culprits.append((c, "panic in a goroutine started by the library (not reproducible in isolation):\n" + first[-900:]))
         if not culprits:
             if w > 1:
                 # nothing crashes alone: probably memory pressure from running in parallel; retry narrower
